@@ -1197,14 +1197,18 @@ func (s Subtitles) WriteToSSA(o io.Writer) (err error) {
 		var styleNames []string
 		for _, s := range s.Styles {
 			var ss = newSSAStyleFromStyle(*s)
-			format = ss.updateFormat(formatMap, format)
 			styles[ss.name] = ss
 			styleNames = append(styleNames, ss.name)
+		}
+
+		// Update the format in a deterministic order
+		sort.Strings(styleNames)
+		for _, n := range styleNames {
+			format = styles[n].updateFormat(formatMap, format)
 		}
 		b = append(b, []byte("Format: "+strings.Join(format, ", ")+"\n")...)
 
 		// Styles
-		sort.Strings(styleNames)
 		for _, n := range styleNames {
 			b = append(b, []byte("Style: "+styles[n].string(format)+"\n")...)
 		}
